@@ -1029,6 +1029,55 @@ func c05Keys(c *core.Ctx, impls []*types.Named) {
 		}
 	}
 	c.Floor("R5.9", "stores of an entry name / strategy", nStores, 4)
+	// ---- R5.12 an entry of the hash-table FIB is accepted only when its name IS the looked-up
+	// prefix: the tables are keyed by the 64-bit hash of the name, and a second name with
+	// the same hash is computed directly (unkeyed xxHash), so a hit under a hash must be
+	// confirmed by comparing the stored name — or the tables must be keyed by the name.
+	for _, t := range impls {
+		if t.Obj().Name() != "FibStrategyHashTable" {
+			continue
+		}
+		st, _ := t.Underlying().(*types.Struct)
+		hashKeyed := false
+		if st != nil {
+			for i := 0; i < st.NumFields(); i++ {
+				if st.Field(i).Name() == "realTable" {
+					if mt, isM := st.Field(i).Type().Underlying().(*types.Map); isM {
+						if b, isB := mt.Key().Underlying().(*types.Basic); isB && b.Info()&types.IsInteger != 0 {
+							hashKeyed = true
+						}
+					}
+				}
+			}
+		}
+		compares := false
+		for _, fn := range p.FuncsIn(core.ModPath + "/fw/table") {
+			if core.FuncID(core.RootOf(fn)).Recv != "FibStrategyHashTable" {
+				continue
+			}
+			core.Instrs(fn, func(in ssa.Instruction) {
+				ci, ok := in.(ssa.CallInstruction)
+				if !ok {
+					return
+				}
+				id, ok := core.Callee(ci.Common())
+				if !ok || id.Name != "Equal" || id.Pkg != "std/encoding" {
+					return
+				}
+				r, a := core.CallArgs(ci.Common())
+				for _, v := range append([]ssa.Value{r}, a...) {
+					if v == nil {
+						continue
+					}
+					if _, isName := core.FieldOf(v, "name"); isName {
+						compares = true
+					}
+				}
+			})
+		}
+		c.Decide(!hashKeyed || compares, "R5.12", "hashtable-hit-confirmed-by-name", p.Pos(t.Obj().Pos()), "the tables are keyed by the name, or a hit is confirmed by comparing the stored name", "the hash-table FIB keys its tables by the 64-bit hash of the name and accepts the entry found under a hash without comparing its name: for two names with the same hash (computable for the unkeyed xxHash) a lookup of one returns the next hops and the strategy of the other, and inserting one overwrites the other — the name-tree FIB keeps them apart")
+	}
+
 	// ---- R5.11
 	if hi := c.Fn("R5.11", "std/encoding", "Component", "HashInto"); hi != nil {
 		fed := false
